@@ -104,6 +104,9 @@ class TemplateWriter(IWriter):
             # To not break old links we also create a symlink from the full module name to the index.html
             # file. This is also good for consistency: every module is accessible by <full module name>.html
             root_module_path = (self.build_directory / (list(system.root_names)[0] + '.html'))
+            if not any(o.isVisible for o in system.rootobjects):
+                # The root is hidden: index.html is not its page, and no file may be named after it.
+                return
             if root_module_path.name == 'index.html':
                 # The root module is itself named "index": <full module name>.html already is index.html,
                 # a symlink would point to itself and the page could not be written.
